@@ -7,7 +7,7 @@ CONSTANTS
   MaxCalls = 10
   MaxTests = 2
   MaxRuns = 1
-  MaxTagOps = 1
+  MaxTagOps = 0
   MaxTimes = 2
   AllowStop = FALSE
   AllowSetFF = FALSE
